@@ -36,6 +36,12 @@ def load_contracts():
                 if getattr(c, "defined_in", None) == modname:
                     for fk, fv in flags.items():
                         setattr(c, fk, fv)
+        for pid, keys in getattr(tuning, "ALSO_SERVES", {}).items():
+            for k in keys:
+                targets = [c for c in REGISTRY.values() if k.startswith("module:") and getattr(c, "defined_in", None) == k[7:]] if k.startswith("module:") else ([REGISTRY[k]] if k in REGISTRY else [])
+                for c in targets:
+                    if not c.assumed and pid not in props_of(c):
+                        c.property = tuple(props_of(c)) + (pid,)
         for k in getattr(tuning, "THOROUGH_ONLY", ()):
             if k in REGISTRY:
                 REGISTRY[k].thorough_only = True
@@ -48,8 +54,14 @@ def load_known():
     if os.path.exists(KNOWN_FILE):
         for line in open(KNOWN_FILE, encoding="utf-8"):
             line = line.strip()
-            if line and not line.startswith("#"):
-                out.append(json.loads(line))
+            if not line or line.startswith("#"):
+                continue
+            if line.startswith("fixed:"):
+                # "fixed: property=<id> <commit> <what failed>": a repaired defect -- recorded, suppresses nothing
+                m = line.split()
+                out.append({"property": m[1].split("=", 1)[1] if len(m) > 1 and "=" in m[1] else "", "fixed": line})
+                continue
+            out.append(json.loads(line))
     return out
 
 
